@@ -54,6 +54,24 @@ def gen_cfgs(ctx, n):
                 if rng.random() < 0.4:
                     ops.append('v1')
             ops.append('v1')
+        if rng.random() < 0.12:
+            # a layer sees more training-mode forward passes than backward passes (a no_grad teacher / pseudo-label pass,
+            # activation checkpointing) while the update is deferred: A and G are each the mean over THEIR OWN batches
+            # (oracle-only histories: the Lean state machine has no forward-only op)
+            cfg.hook = rng.random() < 0.4
+            cfg.accum = 1 if not cfg.hook else rng.choice([2, 3])
+            cfg.cap_mb = 0.0
+            cfg.hyper['factor_update_steps'] = 1
+            ops = []
+            for _ in range(rng.randrange(2, 5)):
+                w = ['f1'] * cfg.accum
+                if cfg.hook:
+                    # the window closes after `accum` forward passes; its last pass is a full one (the backward hook of
+                    # the closing pass is what folds G)
+                    w[rng.randrange(cfg.accum - 1)] = 'F'
+                else:
+                    w.insert(rng.randrange(len(w) + 1), 'F')
+                ops += w + ['s', 'v1']
         cfg.ops = ops
         cfgs.append(cfg)
     return cfgs
